@@ -12,6 +12,7 @@ import shutil
 import subprocess
 import sys
 import time
+import uuid
 
 ROOT = os.path.dirname(os.path.dirname(os.path.abspath(__file__)))
 REPO = os.environ.get("VERIF_REPO", "/repo")
@@ -71,7 +72,7 @@ def run_tlc(module, cfg, cwd, workers=4, simulate=None, depth=None, env=None, ti
             allow_violation=False, dump=None):
     """Run TLC on `module`.tla with `cfg` in directory `cwd`."""
     os.makedirs(WORK, exist_ok=True)
-    meta = os.path.join(WORK, "%s-%d-%d" % (work_id, os.getpid(), int(time.time() * 1000) % 100000000))
+    meta = os.path.join(WORK, "%s-%d-%s" % (work_id, os.getpid(), uuid.uuid4().hex[:12]))
     jtmp = meta + "-tmp"
     os.makedirs(jtmp, exist_ok=True)
     cmd = ["timeout", str(timeout), "java", "-Xss1g", "-Xmx" + heap, "-XX:+UseParallelGC", "-Djava.io.tmpdir=" + jtmp]
